@@ -3,6 +3,20 @@
 import json, sys
 pid = sys.argv[1]
 wt = sys.argv[2] if len(sys.argv) > 2 else f'/tmp/seed_{pid}'
+round2 = len(sys.argv) > 3 and sys.argv[3] == 'round2'
+N = 'TWO' if round2 else 'THREE'
+nk = 2 if round2 else 3
+known = ''
+if round2:
+  import glob, os
+  titles = []
+  for d in sorted(glob.glob(f'/verif/seeded/{pid}_*')):
+    try:
+      titles.append(open(os.path.join(d, 'notes.md')).readline().strip('# \n'))
+    except OSError:
+      pass
+  known = ('\nChanges of the following kinds are ALREADY KNOWN - produce something in a different place and of a different mechanism, '
+           'preferably in the less obvious of the relevant source files or in code those files call into:\n  - ' + '\n  - '.join(titles) + '\n')
 for line in open('/verif/properties.jsonl'):
   p = json.loads(line)
   if p['id'] == pid:
@@ -27,14 +41,15 @@ Quantified over: {p['quantifier']['text']}
 
 Relevant source files: {', '.join(p['anchors']['files'])}
 
-YOUR TASK: produce THREE different, independent source changes to the library (under {wt}/fiddle/, non-test files only), each of which
+YOUR TASK: produce {N} different, independent source changes to the library (under {wt}/fiddle/, non-test files only), each of which
   (a) BREAKS the property above (some clause of it) for some input,
   (b) still imports/compiles, and the ENTIRE existing test suite still passes with it (same pass set as the untouched tree),
   (c) is REALISTIC: it should look like a plausible refactoring slip, optimisation, off-by-one, wrong condition, dropped special case, reordered statements, changed default, cache keyed wrongly, etc. - the kind of thing that gets through code review. No sabotage that is obviously deliberate, no `if x == 12345`, no randomness.
   (d) needs something SPECIFIC to manifest: an unusual input shape, a multi-step sequence of operations, a particular combination of options, two cooperating sites that each look fine alone, a crash at a particular point, etc. Ordinary everyday use (the simplest Config with a couple of keyword arguments) should still behave correctly; the breakage must NOT show up at once in trivial use.
-The three changes should be in DIFFERENT places / mechanisms and break the property in different ways (ideally different clauses of the statement).
+{known}
+The changes should be in DIFFERENT places / mechanisms and break the property in different ways (ideally different clauses of the statement).
 
-For each change k in 1..3 deliver, in {wt}/_out/k/ :
+For each change k in 1..{nk} deliver, in {wt}/_out/k/ :
   - patch.diff : `git diff` of ONLY that change against the untouched worktree HEAD (so it applies with `git apply` on a clean checkout). 
   - demo.py : a small standalone program that exits 0 and prints PASS on the untouched tree, and exits 1 and prints FAIL (with a short explanation of the observed vs expected behaviour) when the change is applied. It must demonstrate a violation of the property as stated, not just a behaviour difference.
   - notes.md : which clause of the property it breaks, what it needs in order to manifest, why the existing tests do not catch it.
